@@ -5,6 +5,7 @@ symbolically (straight-line `return` of an expression; `all`/`any`/comprehension
 therefore both the symbolic definition used in proofs and the executable oracle used by bounded checks and replay.
 """
 # ruff: noqa
+from contracts.specrt import is_deepcopy, same_keys, forall_keys
 
 
 def avail(graph, state, node, param):
@@ -17,7 +18,7 @@ def all_avail(graph, state, node):
 
 
 def gated(graph, node):
-    return bool(graph.controlled_by.get(node.name))
+    return node.name in graph.controlled_by and bool(graph.controlled_by[node.name])
 
 
 def ver(state, name):
@@ -28,7 +29,7 @@ def stale(graph, state, node, last_exec):
     """Some consumed input has a version different from the one recorded at the last execution
     (self-produced inputs of un-gated nodes are skipped)."""
     return any(
-        not (not gated(graph, node) and node.name in graph.self_producers.get(p, set()))
+        not (not gated(graph, node) and p in graph.self_producers and node.name in graph.self_producers[p])
         and ver(state, p) != last_exec.input_versions.get(p, 0)
         for p in node.inputs
     )
@@ -54,3 +55,89 @@ def names(decision, node_name, END):
         and decision is not None
         and ((node_name in decision) if isinstance(decision, list) else decision == node_name)
     )
+
+
+def is_graph_node(node):
+    from hypergraph.nodes.graph_node import GraphNode
+    return isinstance(node, GraphNode)
+
+
+def inner_bound_has(node, param):
+    """Nested-graph wrapper whose inner graph binds the parameter this external name stands for."""
+    return is_graph_node(node) and node._resolve_original_input_name(param) in node._graph.inputs.bound
+
+
+def src_defined(graph, state, node, param):
+    return (
+        param in state.values
+        or param in graph.inputs.bound
+        or inner_bound_has(node, param)
+        or bool(node.has_signature_default_for(param))
+    )
+
+
+def src_kind(graph, state, node, param, VS):
+    """Precedence: upstream/run-time value (state) > bound (outer, then inner graph) > signature default."""
+    return (
+        VS.EDGE if param in state.values
+        else VS.BOUND if (param in graph.inputs.bound or inner_bound_has(node, param))
+        else VS.DEFAULT
+    )
+
+
+def src_value(graph, state, node, param):
+    return (
+        state.values[param] if param in state.values
+        else graph.inputs.bound[param] if param in graph.inputs.bound
+        else node._graph.inputs.bound[node._resolve_original_input_name(param)] if inner_bound_has(node, param)
+        else node.get_signature_default_for(param)
+    )
+
+
+def resolved_ok(v, graph, state, node, param, VS):
+    """The value handed to the node: the very object found (never copied) unless it is a signature default,
+    which is deep-copied per resolution."""
+    return (
+        is_deepcopy(v, src_value(graph, state, node, param))
+        if src_kind(graph, state, node, param, VS) is VS.DEFAULT
+        else v is src_value(graph, state, node, param)
+    )
+
+
+def is_gate(node):
+    from hypergraph.nodes.gate import GateNode
+    return isinstance(node, GateNode)
+
+
+def clears(graph, state, k, END):
+    """The recorded decision of gate k is dropped: k is a gate that must re-run and its decision is not END."""
+    return (
+        k in state.routing_decisions
+        and k in graph._nodes
+        and is_gate(graph._nodes[k])
+        and state.routing_decisions[k] is not END
+        and needs(graph, state, graph._nodes[k])
+    )
+
+
+def gate_opens(graph, state, g, n, END):
+    """Controlling gate g lets node n start: its latest decision names n, or it has not decided yet in this run
+    and allows early start."""
+    return (
+        (g not in state.node_executions and g in graph._nodes and bool(getattr(graph._nodes[g], "default_open", True)))
+        if state.routing_decisions.get(g) is None
+        else names(state.routing_decisions.get(g), n, END)
+    )
+
+
+def node_activated(graph, state, n, END):
+    return not (n in graph.controlled_by and bool(graph.controlled_by[n])) or any(gate_opens(graph, state, g, n, END) for g in graph.controlled_by[n])
+
+
+def nodes_keyed_by_name(graph):
+    """Object-model fact (proved for Graph._build_nodes_dict): the node map is keyed by node name."""
+    return all(graph._nodes[k].name == k for k in graph._nodes)
+
+
+def gated_name(graph, n):
+    return n in graph.controlled_by and bool(graph.controlled_by[n])
